@@ -1074,3 +1074,36 @@ def r3b(cx):
                          'missing/non-literal nor consulted the keyword table (%s; the longest keyword has %d characters): a simple command whose '
                          'name is that keyword after a redirection is then printed words-first and no longer parses back'
                          % (', '.join(why) or 'unrecognised guard', maxlen), loc=b.loc(s))
+
+
+@RS.rule('C06.R1f', 'K-SIBLING', r"the \c escape: the lexer demands a doubled backslash for control-backslash, so the printer must emit it doubled")
+def r1f(cx):
+    F = cx.F
+    pfn = [k for k in F.hir if Q.re.search(r'lex::escape::.*::escape_unit$', k)]
+    cx.require(len(pfn) == 1, 'Lexer::escape_unit not found: %s' % pfn)
+    ph = F.hir[pfn[0]]
+    special = [x for x in H.walk(ph['body']) if x.get('k') == 'path' and (x.get('def') or '').endswith('SyntaxError::IncompleteControlBackslashEscape')]
+    cx.fn(pfn[0])
+    dfn = impl_fn(F, 'yash_syntax::syntax::EscapeUnit', 'core::fmt::Display', 'fmt')
+    cx.require(dfn is not None, 'Display for EscapeUnit not found')
+    cx.fn(dfn)
+    dh = F.hir_of(dfn)
+    ms = [m for m in H.matches_in(dh['body']) if 'EscapeUnit' in (m.get('sty') or '')]
+    cx.require(len(ms) == 1, 'match over EscapeUnit not found in its Display impl')
+    CTRL = 'yash_syntax::syntax::EscapeUnit::Control'
+    cx.site('escape_unit: control-backslash special case present: %s' % bool(special))
+    if not special:
+        return
+    i, arm = H.first_matching_arm(ms[0], ('variant', CTRL, [('lit', 0x1C)]))
+    j, arm2 = H.first_matching_arm(ms[0], ('variant', CTRL, [('lit', 0x01)]))
+    cx.site('Display for EscapeUnit: Control(0x1C) -> arm %s, Control(0x01) -> arm %s' % (i, j))
+    loc = '%s:%s' % (dh['file'], dh['line'])
+    if i is None or j is None:
+        from facts import AnchorMissing
+        raise AnchorMissing('Display for EscapeUnit: Control arms not decidable (%s / %s)' % (arm, arm2))
+    lits = [x.get('v') for x in H.walk(arm['body']) if x.get('k') == 'lit' and x.get('t') in ('str', 'bytes')]
+    doubled = any(isinstance(v, str) and '\\c\\\\' in v for v in lits)
+    if i == j or not doubled:
+        cx.violation(dfn, 'control-backslash-not-doubled', "the lexer reads control-backslash only as `\\c\\\\` (a single backslash after \\c is "
+                     "IncompleteControlBackslashEscape) but Display prints EscapeUnit::Control(0x1C) through the general `\\c<char>` arm: "
+                     "the printed form of $'\\c\\\\' does not parse back", loc=loc)
